@@ -33,3 +33,69 @@ U('C05', 'C05_assign.cpp', defines=dict(DIM=1, NB=3, SB=4, MEMSZ2=24), unwind=6,
 U('C05', 'C05_assign.cpp', defines=dict(DIM=2, NB=2, SB=3, MEMSZ2=16), unwind=6, timeout=900)
 U('C05', 'C05_assign.cpp', defines=dict(DIM=2, NB=3, SB=4, MEMSZ2=32), unwind=11, timeout=3600, tier='thorough', backend='kissat')
 U('C05', 'C05_assign.cpp', defines=dict(DIM=3, NB=2, SB=3, MEMSZ2=32), unwind=10, timeout=3600, tier='thorough', backend='kissat')
+
+# ---- C07 equality and ordering
+U('C07', 'C07_compare.cpp', defines=dict(DIM=1, NB=3, SB=4, MEMSZ2=12), unwind=6, timeout=900)
+U('C07', 'C07_compare.cpp', defines=dict(DIM=2, NB=2, SB=3, MEMSZ2=12), unwind=7, timeout=900)
+U('C07', 'C07_compare.cpp', defines=dict(DIM=3, NB=2, SB=3, MEMSZ2=24), unwind=11, timeout=3600, tier='thorough', backend='kissat')
+U('C07', 'C07_compare.cpp', name='C07_triples_DIM2', defines=dict(DIM=2, NB=2, SB=3, MEMSZ2=12, TRIPLES=1), entries=['order_transitive'], unwind=7, timeout=3600, tier='thorough', backend='kissat')
+
+# ---- C04 value semantics of owning arrays (one operation from an arbitrary reachable pre-state; SLOT_CELLS = max elements per array)
+U('C04', 'C04_value.cpp', defines=dict(DIM=1, NB=3, ELT='int', SLOT_CELLS=3), unwind=6, timeout=1200, heap=128)
+U('C04', 'C04_value.cpp', defines=dict(DIM=2, NB=2, ELT='int', SLOT_CELLS=6), unwind=7, timeout=1800, heap=128, slots=2, tier='thorough')
+U('C04', 'C04_value.cpp', defines=dict(DIM=1, NB=2, ELT='Tr', SLOT_CELLS=3), unwind=5, timeout=1800, heap=128, slots=2)
+U('C04', 'C04_value.cpp', defines=dict(DIM=2, NB=2, ELT='Tr', SLOT_CELLS=6), unwind=7, timeout=3600, heap=128, tier='thorough', slots=2)
+
+# ---- C06 reextent, clear, reshape, assign
+U('C06', 'C06_reextent.cpp', defines=dict(DIM=1, NB=3, ELT='int', SLOT_CELLS=3), unwind=6, timeout=1200, heap=128)
+U('C06', 'C06_reextent.cpp', defines=dict(DIM=2, NB=2, ELT='int', SLOT_CELLS=4), unwind=7, timeout=1800, heap=128, slots=2)
+U('C06', 'C06_reextent.cpp', defines=dict(DIM=1, NB=2, ELT='Tr', SLOT_CELLS=3), unwind=6, timeout=1800, heap=128, slots=2)
+U('C06', 'C06_reextent.cpp', defines=dict(DIM=2, NB=2, ELT='Tr', SLOT_CELLS=4), unwind=7, timeout=3600, heap=128, tier='thorough', slots=2)
+
+# ---- C08 element lifetime and storage accounting (ghost bitmap + ledger; C04/C06 harnesses re-used with the tracked element type)
+U('C08', 'C08_ctor.cpp', defines=dict(DIM=1, NB=2, ELT='Tr', SLOT_CELLS=3), unwind=6, timeout=1800, heap=128, slots=2)
+U('C08', 'C08_ctor.cpp', defines=dict(DIM=2, NB=2, ELT='Tr', SLOT_CELLS=4), unwind=7, timeout=1800, heap=128, slots=2)
+U('C08', 'C08_ctor.cpp', name='C08_nowrite_DIM1', defines=dict(DIM=1, NB=3, ELT='int', SLOT_CELLS=3, NOWRITE=1), entries=['sizing_ctor_does_not_write', 'reextent_does_not_write_new_elements'], unwind=6, timeout=1800, heap=128)
+U('C08', 'C08_ctor.cpp', name='C08_nowrite_DIM2', defines=dict(DIM=2, NB=2, ELT='int', SLOT_CELLS=4, NOWRITE=1), entries=['sizing_ctor_does_not_write', 'reextent_does_not_write_new_elements'], unwind=7, timeout=1800, heap=128)
+U('C08', 'C04_value.cpp', name='C08_C04_value_DIM1_Tr', defines=dict(DIM=1, NB=2, ELT='Tr', SLOT_CELLS=3), unwind=5, timeout=1800, heap=128, slots=2)
+U('C08', 'C06_reextent.cpp', name='C08_C06_reextent_DIM1_Tr', defines=dict(DIM=1, NB=2, ELT='Tr', SLOT_CELLS=3), unwind=6, timeout=1800, heap=128, slots=2)
+U('C08', 'C06_reextent.cpp', name='C08_C06_reextent_DIM2_Tr', defines=dict(DIM=2, NB=2, ELT='Tr', SLOT_CELLS=4), unwind=7, timeout=3600, heap=128, slots=2, tier='thorough')
+
+# ---- C09 failure injection: symbolic fault ordinal, real C++ exceptions lowered by ll2c
+U('C09', 'C09_fault.cpp', defines=dict(DIM=1, NB=2, ELT='Tr', SLOT_CELLS=3, KMAX=10), unwind=6, timeout=1800, heap=128, slots=2)
+U('C09', 'C09_fault.cpp', defines=dict(DIM=2, NB=2, ELT='Tr', SLOT_CELLS=4, KMAX=16), unwind=7, timeout=3600, heap=128, slots=3, tier='thorough')
+
+# ---- C10 allocator identity and propagation: 8 trait combinations (compile-time) x symbolic instance ids
+for cca in (0, 1):
+    for cma in (0, 1):
+        for cs in (0, 1):
+            quick = (cca, cma, cs) in ((0, 0, 0), (1, 1, 1), (0, 1, 0))
+            U('C10', 'C10_alloc.cpp', defines=dict(DIM=1, NB=2, POCCA=cca, POCMA=cma, POCS=cs, SLOT_CELLS=2), unwind=5, timeout=1800, heap=128, tier='quick' if quick else 'thorough')
+U('C10', 'C10_alloc.cpp', defines=dict(DIM=2, NB=2, POCCA=0, POCMA=0, POCS=0, SLOT_CELLS=4), unwind=7, timeout=3600, heap=128, tier='thorough')
+
+# ---- C12 projection views
+U('C12', 'C12_project.cpp', defines=dict(DIM=1, NB=3, SB=4, MEMSZ2=16), unwind=6, timeout=900, heap=256)
+U('C12', 'C12_project.cpp', defines=dict(DIM=2, NB=3, SB=3, MEMSZ2=32), unwind=11, timeout=1200, heap=256)
+U('C12', 'C12_project.cpp', defines=dict(DIM=3, NB=2, SB=3, MEMSZ2=32), unwind=10, timeout=3600, heap=256, tier='thorough')
+
+# ---- C13 BLAS adaptor, call-contract level (recorded Fortran calls + address-map oracle); a rejection (exception / assertion) is an allowed outcome
+BLAS_STUBS = [r'_ZNSt7__cxx1112basic_string', r'_ZNSt11logic_error', r'_ZNSt13runtime_error', r'_ZSt.*to_string', r'_ZNSt9exception', r'vsnprintf', r'_ZNKSt', r'_ZStplI', r'_ZSt9terminatev__', r'__cxa_guard', r'_ZNSt8ios_base', r'__cxa_atexit', r'_ZNSo', r'_ZSt4cerr', r'_ZSt16__ostream_insert', r'_ZNSt6locale', r'_ZSt4endl', r'_ZNSt9basic_ios', r'_ZNKSt5ctype', r'_ZSt16__throw_bad_castv']
+U('C13', 'C13_blas.cpp', defines=dict(NB=3, PAD=2), unwind=6, timeout=1800, heap=1024, stubs=BLAS_STUBS, objbits=12)
+
+# ---- C15 FFTW adaptor, call-contract level (recorded guru plan)
+FFTW_STUBS = [r'fftw_cleanup', r'fftw_cost', r'fftw_flops', r'fftw_init_threads', r'fftw_plan_with_nthreads', r'fftw_make_planner_thread_safe', r'fftw_cleanup_threads', r'_ZNSt8ios_base', r'__cxa_atexit', r'__cxa_guard', r'omp_get', r'_ZNSt6thread', r'sysconf', r'_ZNSt7__cxx11', r'_ZNSt11logic_error', r'_ZNSt13runtime_error', r'_ZSt.*to_string']
+for d in (1, 2, 3):
+    U('C15', 'C15_fftw.cpp', defines=dict(DIM=d, NB=3, SB=4 if d < 3 else 3, MEMSZ2=48 if d == 3 else 32), unwind=6, timeout=1200, heap=1024, stubs=FFTW_STUBS)
+U('C15', 'C15_fftw.cpp', defines=dict(DIM=4, NB=2, SB=3, MEMSZ2=48), unwind=7, timeout=3600, heap=1024, stubs=FFTW_STUBS, tier='thorough')
+
+# ---- C18 MPI messages, call-contract level (typemap model over recorded MPI_Type_* calls)
+MPI_STUBS = [r'_ZNSt8ios_base', r'__cxa_atexit', r'_ZNSt7__cxx11', r'_ZNSt11logic_error']
+for d in (1, 2, 3):
+    U('C18', 'C18_mpi.cpp', defines=dict(DIM=d, NB=3, SB=4 if d < 3 else 3, MEMSZ2=40), unwind=6, timeout=1200, heap=256, stubs=MPI_STUBS, cflags=['-I/usr/lib/x86_64-linux-gnu/openmpi/include'])
+U('C18', 'C18_mpi.cpp', name='C18_mpi_double_DIM2', defines=dict(DIM=2, NB=3, SB=4, MEMSZ2=40, ELEM='double'), unwind=6, timeout=1200, heap=256, stubs=MPI_STUBS, cflags=['-I/usr/lib/x86_64-linux-gnu/openmpi/include'])
+U('C18', 'C18_mpi.cpp', defines=dict(DIM=4, NB=2, SB=3, MEMSZ2=48), unwind=7, timeout=3600, heap=256, stubs=MPI_STUBS, cflags=['-I/usr/lib/x86_64-linux-gnu/openmpi/include'], tier='thorough')
+
+# ---- C14 LAPACK adaptor, call-contract level
+LAPACK_STUBS = [r'_ZNSt7__cxx11', r'_ZNSt13runtime_error', r'_ZNSt11logic_error', r'_ZSt.*to_string', r'vsnprintf', r'_ZNSt8ios_base', r'__cxa_atexit', r'_ZStplI', r'_ZNKSt', r'_ZN9__gnu_cxx', r'_ZNSt9exception']
+for w in (1, 2, 3):
+    U('C14', 'C14_lapack.cpp', defines=dict(NB=3, PAD=2, SLOT_CELLS=4, MAXBLK=2, WHICH=w), unwind=6, timeout=1200, heap=1024, stubs=LAPACK_STUBS)
